@@ -17,9 +17,10 @@ Section Generic.
     match o with
     | OZero => b <= 0 /\ l' = last
     | OPass w => 1 <= b /\ blk b = false /\ l' = now + w /\ now + w - last >= iv b /\ 0 <= w /\
-                 (0 <= maxq -> w <= maxq) /\ (last + iv b <= now -> w = 0) /\
+                 w <= maxq /\ (last + iv b <= now -> w = 0) /\
                  (now < last + iv b -> w = last + iv b - now)
-    | OBlock => 1 <= b /\ l' = last /\ (blk b = true \/ last + iv b - now > maxq)
+    | OBlock => 1 <= b /\ l' = last /\
+                (blk b = true \/ (Z.max (last + iv b) now - now > maxq /\ (0 <= maxq -> last + iv b - now > maxq)))
     end.
 
   Lemma step_spec last now b : step_post last now b (fst (do_check last now b)) (snd (do_check last now b)).
@@ -27,22 +28,21 @@ Section Generic.
     unfold Throttle.do_check.
     destruct (b <=? 0) eqn:Eb; cbn [fst snd step_post]; [lia|].
     destruct (blk b) eqn:Ek; cbn [fst snd step_post]; [split; [lia|split; [reflexivity|left; exact Ek]]|].
-    destruct (last + iv b <=? now) eqn:Ei; cbn [fst snd step_post].
+    destruct (Z.max (last + iv b) now - now >? maxq) eqn:Eq; cbn [fst snd step_post].
+    - repeat split; try lia.
     - repeat split; try lia; try exact Ek.
-    - destruct (last + iv b - now >? maxq) eqn:Eq; cbn [fst snd step_post].
-      + repeat split; try lia.
-      + destruct (last + iv b - now >? 0) eqn:Ep; cbn [fst snd step_post]; repeat split; try lia; try exact Ek.
   Qed.
 
   Lemma zero_inert last now b : b <= 0 -> do_check last now b = (last, OZero).
   Proof. intro H. unfold Throttle.do_check. destruct (b <=? 0) eqn:E; [reflexivity|lia]. Qed.
 
-  Lemma idle_pass last now b : 1 <= b -> blk b = false -> last + iv b <= now ->
+  Lemma idle_pass last now b : 0 <= maxq -> 1 <= b -> blk b = false -> last + iv b <= now ->
     do_check last now b = (now, OPass 0).
   Proof.
-    intros Hb Hk Hi. unfold Throttle.do_check.
+    intros Hq Hb Hk Hi. unfold Throttle.do_check.
     destruct (b <=? 0) eqn:E; [lia|]. rewrite Hk.
-    destruct (last + iv b <=? now) eqn:E2; [reflexivity|lia].
+    replace (Z.max (last + iv b) now) with now by lia. replace (now - now) with 0 by lia.
+    destruct (0 >? maxq) eqn:E2; [lia|reflexivity].
   Qed.
 
   Lemma block_iff last now b : 0 <= maxq ->
@@ -55,8 +55,7 @@ Section Generic.
       destruct (b <=? 0) eqn:E; [lia|].
       destruct (blk b) eqn:Ek; [reflexivity|].
       destruct Hc as [Hc|Hc]; [discriminate|].
-      destruct (last + iv b <=? now) eqn:E2; [lia|].
-      destruct (last + iv b - now >? maxq) eqn:E3; [reflexivity|lia].
+      destruct (Z.max (last + iv b) now - now >? maxq) eqn:E3; [reflexivity|lia].
   Qed.
 
   (* the stored time is the last assigned pass time, and pass times are spaced *)
